@@ -9,33 +9,38 @@ from iterlib import *
 PID = "C08"
 IMPORTS = iterlib.IMPORTS
 MODEL_VO = iterlib.MODEL_VO
-RULE = ("square sparse systems of order 1..60 (quick: 1..40): SPD (Gram+shift), strictly diagonally dominant nonsymmetric, general "
-        "nonsymmetric, symmetric indefinite, ill-conditioned (row / congruence scaling 1e-6..1e6), singular (zero row, zero column, "
-        "repeated row), zero right-hand side; guesses zero / random / exact; tol 1e-2..1e-12; budgets 0,1,2,3,n/2,n,2n,3n+10,10n+50; "
-        "all five entry points (CG, BiCG itol 1 and 2, BiCGSTAB, QMR) per system; any triplet order; plus non-square / mismatched "
-        "sizes (must be rejected). Systems of order <= 12 go through the correspondence check (float model vs f64, x / count / Err value); "
-        "every case is judged by the oracle. distinct = distinct executor line; non-trivial = order >= 2 and the solver iterated at least once.")
+RULE = ("square sparse systems of order 1..60 (quick: 1..40): SPD (Gram+shift), strictly diagonally dominant nonsymmetric (positive and mixed-sign "
+        "diagonal), general nonsymmetric, symmetric indefinite, ill-conditioned (row / congruence scaling 1e-6..1e6), singular (zero row, zero column, "
+        "repeated row; consistent and inconsistent rhs), tiny diagonal (1e-3..1e-8, the drift family), zero right-hand side; guesses zero / random / exact; "
+        "tol 1e-2..1e-12; budgets 0,1,2,3,n/2,n,2n,3n+10,10n+50; all five entry points (CG, BiCG itol 1 and 2, BiCGSTAB, QMR) on every system; any triplet "
+        "order; the empty system; non-square / mismatched sizes (must be rejected). Every run is an ORACLE case (full answer judged by the property predicate); "
+        "runs on systems of order <= 12 are in addition TIE cases (kinds it.*.t: Ok/Err, count and x after Ok, compared with the float model), except runs "
+        "whose outcome is not a stable function of rounding (decision within 1e-9 tol, drift above tol/100, cond > 1e8: counted in tie_excluded_*). "
+        "distinct = distinct executor line of an oracle case; non-trivial = order >= 2 and budget >= 1.")
 TRUSTED = ["Coq 8.16.1 kernel + vm_compute (primitive floats)", "Rust executor /verif/harness (kinds it.*)",
-           "python driver: generators, exact-rational residual, numpy spectral norm, stream comparators",
+           "python driver: generators, exact-rational residual, numpy spectral norm / condition number, stream comparators",
            "hand-written Gallina model coq/Model/Iter.v (on top of coq/Model/Sparse.v) tied to src/sparse.rs:303-616 by differential execution",
            "the largest intermediate iterate/update norm X in the drift allowance is the float model's ghost trace on the same input"]
-ASSUMPTIONS = ["Rust semantics of Vec/usize/f64 as modelled; f64::powf(|x|, 2.0) equals |x|*|x| (observed: model and implementation agree bit for bit)",
-               "the matrix-vector products are linear maps (Section hypothesis of the residual-invariant theorems; C07 proves it for the CSC products)"]
+ASSUMPTIONS = ["Rust semantics of Vec/usize/f64 as modelled; f64::powf(|x|, 2.0) equals |x|*|x| (observed: model and implementation agree bit for bit on every compared run)",
+               "the matrix-vector products are linear maps (hypothesis LinOp of the residual-invariant theorems; C07 proves it for the CSC products; "
+               "discharged here for a concrete CSC matrix over Qc and over R)"]
 UNPROVED = ["the rounding drift between the recurrence residual and the true residual in f64 is not proved; the oracle bounds it by "
             "64*(k+1)*2^-53*(||A||_2*X + ||b||)/||b||' on every Ok answer (search, not proof)",
-            "finiteness of x on Ok in f64 is searched, not proved"]
+            "finiteness of x on Ok in f64 is searched, not proved",
+            "over a field a division by zero is a panic of the model (the theorems are silent on such runs); in f64 it yields inf/NaN -- covered by tie + search"]
 
 MANIFEST = dict(
-    text=("Theorems about the Gallina model of the four Krylov solvers (any matrix given as a pair of products, any size, guess, tolerance, budget): "
-          "over ANY arithmetic (floats included) Ok k implies k <= max_iter, a zero budget returns x untouched, and Ok is only returned from a branch whose "
-          "test resid <= tol (or <) on the recurrence vector succeeded; over any field with any square-root function and linear products the recurrence "
-          "vector equals b - A x at every exit (all four solvers; QMR also s = A d), hence Ok means ||b - A x||/||b||' <= tol exactly. "
-          "The float instance of the same definitions (CSC products of Model/Sparse.v) is run against the implementation on systems of order <= 12 "
-          "(x, count, Err value); an oracle with an exact-rational residual judges every Ok answer up to order 60."),
+    text=("Theorems about the Gallina model of the four Krylov solvers (matrix = any pair of products, any size, guess, tolerance, budget). "
+          "Over ANY arithmetic, floats included: ok_le_budget (Ok k => k <= max_iter), zero_budget_untouched (budget 0 returns x untouched), ok_passed_test "
+          "(Ok is returned only after the test resid <= tol, or < tol, succeeded on the recurrence vector). Over any field with ANY square-root function and a "
+          "linear product: residual_invariant_{cg,bicg,bicgstab,qmr} (the recurrence vector equals b - A x at every exit, Ok or Err, for every budget -- hence at "
+          "every iteration; QMR also s = A d), ok_means_solved (Ok => ||b - A x|| / ||b||' passes the code's test on the TRUE residual) and ok_means_solved_R "
+          "(over the reals: ||b - A x||_2 <= tol ||b||'). The float instance of the same definitions (CSC products of Model/Sparse.v, built by from_triplets) is "
+          "run against the implementation on systems of order <= 12; an oracle with an exact-rational residual judges every Ok answer up to order 60."),
     note=("The f64 drift of the residual recurrence and finiteness of x are NOT proved: they are searched with the allowance "
-          "64(k+1)eps(||A|| X + ||b||)/||b||', X taken from the float model's trace. The exact-arithmetic theorem treats a division by zero as a panic, "
-          "where f64 produces inf/NaN (then the float test cannot succeed: NaN <= tol is false)."),
-    technique="Coq proof over an abstract field (loop-invariant rule for fuelled early-exit loops) + float-model/implementation differential execution + exact-residual oracle",
+          "64(k+1)eps(||A|| X + ||b||)/||b||', X taken from the float model's trace. The exact-arithmetic theorems treat a division by zero as a panic "
+          "(the run returns nothing), where f64 produces inf/NaN (then no test can succeed: NaN <= tol is false)."),
+    technique="Coq proof over an abstract field (characterisation lemma for fuelled early-exit loops + per-solver invariant) + float-model/implementation differential execution + exact-residual oracle",
     design="7 (C08)")
 
 BUDGETS = ["0", "1", "2", "3", "n/2", "n", "2n", "3n+10", "10n+50"]
@@ -62,8 +67,8 @@ def generate(rng, tier):
     cases = []
     quick = (tier == "quick")
     g = rng.fork("c08")
-    nsys_small = 90 if quick else 900
-    nsys_big = 40 if quick else 300
+    nsys_small = 90 if quick else 500
+    nsys_big = 40 if quick else 200
     maxn = 40 if quick else 60
     def emit(n, fam, tag):
         ints = g.chance(2, 3)
